@@ -344,6 +344,14 @@ def inplace(eng, op, box, rhs):
     return False
 
 
+def _identity_sort(eng, v):
+    t = type_of(v) if isinstance(v, SV) else None
+    if isinstance(t, TOpt):
+        t = t.t
+    name = getattr(t, 'name', None) if isinstance(t, TKey) else None
+    return name if name in getattr(eng, 'identity_sorts', ()) else None
+
+
 def compare(eng, op, a, b):
     if (isinstance(a, PArr) or isinstance(b, PArr)) and op in ('Lt', 'LtE', 'Gt', 'GtE'):
         x, y = _real(eng.num(a)), _real(eng.num(b))
@@ -367,6 +375,9 @@ def compare(eng, op, a, b):
             r = eng.eq(a, b)
         elif isinstance(a, (Obj, Box, Closure, ClassV, ExcClass)) or isinstance(b, (Obj, Box, Closure, ClassV, ExcClass)):
             r = a is b
+        elif _identity_sort(eng, a) is not None and _identity_sort(eng, a) == _identity_sort(eng, b):
+            # values of an abstract sort the contract declares to stand for objects (eng.identity_sorts): one value, one object
+            r = eng.eq(a, b)
         else:
             raise EngineError('identity comparison of values')
         return r if op == 'Is' else eng.Not(r)
